@@ -63,3 +63,12 @@ package recover
 //@       !emits HeaderSet(_, _, _) && !emits WriteHeader(_, _) && !emits Write(_, _) && !emits HTTPRedirect(_, _, _)
 //@   ensures[C16] unknown_account_fakes_success: each Store.Load(_) -> (_, ?le) => le == ErrUserNotFound ==> (after Redirect(_) && !emits Respond(_, _, _))
 //@   ensures[C16] known_account_same_answer: (result == nil && !emits Respond(_, _, _) && !(emits Fire("Before", _, _, _, _) -> (?hd, _) :: hd)) ==> emits Redirect(_)
+//@
+//@ func (*Recover).EndGet
+//@   property C05 C17
+//@   ensures[C17] no_secret_leak: secrets_clean
+//@   -- C05: opening the mailed link only shows the form: it neither looks the token up nor
+//@   -- changes anything stored or in the session (validity is decided by EndPost alone)
+//@   ensures[C05] get_changes_nothing: !emits Store.Save(_) && !emits Store.LoadByRecoverSelector(_) && !emits Sess.Put(_, _) && !emits Sess.Del(_) &&
+//@       !emits Cook.Put(_, _) && !emits Cook.Del(_)
+
